@@ -256,6 +256,10 @@ func c19Suppressors(c *Ctx, builders []*builder) {
 						flags[f.Key()] = true
 					}
 				}
+				// the flag read through an accessor
+				if k := getterField(c, cond); k != "" && !g.Branch && ir.TypeStr(cond.Type()) == "bool" {
+					flags[k] = true
+				}
 			}
 		})
 	}
